@@ -1069,6 +1069,90 @@ int sexp_poll_port(sexp ctx, sexp port, int inputp) {
 }
 #endif
 
+#if SEXP_USE_VERIF_HOOKS && SEXP_USE_GREEN_THREADS
+/* verification hook H4 (time slices).  CHIBI_VERIF_SCHED=list:k1,k2,... or seed:s:max gives
+ * the number of VM instructions of each following time slice (instead of the thread's fixed
+ * refuel) whenever the scheduler knows more than one thread; after the list is used up the
+ * default quantum applies again.  CHIBI_VERIF_SCHED_TRACE=<file> is the trace shared with
+ * lib/srfi/18/threads.c (scheduler decisions and thread primitives). */
+#include <stdio.h>
+#include <stdlib.h>
+#include <string.h>
+static int sexp_verif_sched_mode = -1;   /* -1 unread, 0 off, 1 list, 2 seeded */
+static long *sexp_verif_sched_list, sexp_verif_sched_len, sexp_verif_sched_pos;
+static unsigned long sexp_verif_sched_state, sexp_verif_sched_max;
+static FILE *sexp_verif_sched_fh;
+static int sexp_verif_sched_fh_init;
+static long sexp_verif_sched_lines;
+SEXP_API FILE* sexp_verif_sched_trace (void) {
+  char *s;
+  if (!sexp_verif_sched_fh_init) {
+    sexp_verif_sched_fh_init = 1;
+    s = getenv("CHIBI_VERIF_SCHED_TRACE");
+    if (s && *s) sexp_verif_sched_fh = fopen(s, "w");
+  }
+  return sexp_verif_sched_fh;
+}
+/* re-read the environment (embedding harnesses run many schedules in one process) */
+SEXP_API int sexp_verif_sched_generation = 0;
+SEXP_API void sexp_verif_sched_reset (void) {
+  if (sexp_verif_sched_fh) fclose(sexp_verif_sched_fh);
+  sexp_verif_sched_fh = NULL;
+  sexp_verif_sched_fh_init = 0;
+  if (sexp_verif_sched_list) free(sexp_verif_sched_list);
+  sexp_verif_sched_list = NULL;
+  sexp_verif_sched_len = sexp_verif_sched_pos = 0;
+  sexp_verif_sched_mode = -1;
+  sexp_verif_sched_lines = 0;
+  sexp_verif_sched_generation++;
+}
+/* the trace file for one more line, or NULL once the line budget is used up (a hanging
+ * program calls the scheduler in a busy loop) */
+SEXP_API FILE* sexp_verif_sched_trace_line (void) {
+  FILE *fh = sexp_verif_sched_trace();
+  if (fh && ++sexp_verif_sched_lines > 20000) return NULL;
+  return fh;
+}
+static sexp_sint_t sexp_verif_next_slice (sexp ctx, sexp_sint_t fuel) {
+  char *s, *q;
+  long k = 0, n;
+  if (sexp_verif_sched_mode < 0) {
+    sexp_verif_sched_mode = 0;
+    s = getenv("CHIBI_VERIF_SCHED");
+    if (s && strncmp(s, "list:", 5) == 0) {
+      for (n=1, q=s+5; *q; q++) if (*q == ',') n++;
+      sexp_verif_sched_list = (long*) malloc(n * sizeof(long));
+      for (q=s+5; sexp_verif_sched_list && *q; ) {
+        k = strtol(q, &q, 10);
+        sexp_verif_sched_list[sexp_verif_sched_len++] = k;
+        while (*q && *q != ',') q++;
+        if (*q == ',') q++;
+      }
+      sexp_verif_sched_mode = 1;
+    } else if (s && strncmp(s, "seed:", 5) == 0) {
+      sexp_verif_sched_state = strtoul(s+5, &q, 10);
+      sexp_verif_sched_max = (*q == ':') ? strtoul(q+1, NULL, 10) : SEXP_DEFAULT_QUANTUM;
+      if (sexp_verif_sched_max < 1) sexp_verif_sched_max = 1;
+      sexp_verif_sched_mode = 2;
+    }
+  }
+  if (sexp_verif_sched_mode == 0
+      || !(sexp_pairp(sexp_global(ctx, SEXP_G_THREADS_FRONT))
+           || sexp_pairp(sexp_global(ctx, SEXP_G_THREADS_PAUSED))))
+    return fuel;
+  if (sexp_verif_sched_mode == 1) {
+    if (sexp_verif_sched_pos >= sexp_verif_sched_len) return fuel;
+    k = sexp_verif_sched_list[sexp_verif_sched_pos++];
+  } else {
+    sexp_verif_sched_state = sexp_verif_sched_state * 6364136223846793005UL + 1442695040888963407UL;
+    k = 1 + (long)((sexp_verif_sched_state >> 33) % sexp_verif_sched_max);
+  }
+  if (k < 1) k = 1;
+  if (sexp_verif_sched_trace_line()) fprintf(sexp_verif_sched_trace(), "q %p %ld\n", (void*)ctx, k);
+  return k + 1;  /* the loop decrements before testing: k instructions run */
+}
+#endif
+
 sexp sexp_apply (sexp ctx, sexp proc, sexp args) {
   unsigned char *ip;
   sexp bc, cp, *stack = sexp_stack_data(sexp_context_stack(ctx)), tmp;
@@ -1148,6 +1232,9 @@ sexp sexp_apply (sexp ctx, sexp proc, sexp args) {
       fuel = 1;
       goto loop;  /* we were still waiting, try again */
     }
+#if SEXP_USE_VERIF_HOOKS
+    fuel = sexp_verif_next_slice(ctx, fuel);
+#endif
   }
 #endif
 #if SEXP_USE_DEBUG_VM
